@@ -301,13 +301,15 @@ func (x *Exec) callByContract(st *State, fr *Frame, callee *ssa.Function, fc *Fu
 	}
 	post := &Env{x: x, st: st, old: old, vars: env.vars, pkg: env.pkg, newBase: nbCall}
 	post = post.withResultsSig(res, sig, fc)
+	// the callee's ghost effects come first: its postconditions and the invariants speak about the final ghost state
+	// (the same order as at the callee's own return)
+	x.applyGhost(st, post, fc)
 	for _, e := range fc.Ensures {
 		st.assume(x.evalBool(post, e.Expr))
 	}
 	for _, bi := range invs {
 		st.assume(x.evalBool(post.with(bi.Binder, bi.val), bi.inv.Expr))
 	}
-	x.applyGhost(st, post, fc)
 	if sig != nil {
 		x.setResult(fr, pos, x.tuple(res, sig.Results()))
 	}
@@ -790,13 +792,13 @@ func (x *Exec) callBySlot(st *State, fr *Frame, sc *FuncContract, slot string, s
 		res = append(res, rv)
 	}
 	post := (&Env{x: x, st: st, old: old, vars: env.vars, pkg: env.pkg, newBase: x.nextBefore}).withResultsSig(res, sig, sc)
+	x.applyGhost(st, post, sc)
 	for _, e := range sc.Ensures {
 		st.assume(x.evalBool(post, e.Expr))
 	}
 	for _, bi := range invs {
 		st.assume(x.evalBool(post.with(bi.Binder, bi.val), bi.inv.Expr))
 	}
-	x.applyGhost(st, post, sc)
 	x.setResult(fr, pos, x.tuple(res, sig.Results()))
 }
 
@@ -1213,53 +1215,87 @@ func (x *Exec) ghostEvent(st *State, kind string, pos ssa.Instruction) {}
 // after it receives from ch ($msg is the value received). Sound under the
 // hand-off discipline (discipline/goroutine-results-handed-off-through-a-channel).
 func (x *Exec) chanPromises(st *State, kind, name string, v *Value, okT, cond string, pos ssa.Instruction) {
-	if v == nil || pos == nil || pos.Parent() == nil {
+	if pos == nil || pos.Parent() == nil {
 		return
 	}
-	fn := pos.Parent()
 	fr := st.top()
+	// promises are indexed by channel name over all contracts (deterministic order)
+	var prs []*Clause
+	var owners []string
+	for n := range x.C.Funcs {
+		owners = append(owners, n)
+	}
+	sort.Strings(owners)
+	for _, n := range owners {
+		for _, pr := range x.C.Funcs[n].Promises {
+			prs = append(prs, pr)
+		}
+	}
+	bind := func(env *Env, msg *Value, prevVar, cntVar string) {
+		if msg != nil {
+			env.vars["$msg"] = msg
+		}
+		if pv, ok := st.ghost[prevVar]; ok {
+			env.vars["$prev"] = pv
+		}
+		if cv, ok := st.ghost[cntVar]; ok {
+			env.vars["$n"] = cv
+		}
+	}
 	switch kind {
 	case "send":
-		owner := fn.Parent()
-		if owner == nil {
+		if v == nil {
 			return
 		}
-		fc, ok := x.C.Funcs[x.P.FuncName(owner)]
-		if !ok {
-			return
-		}
-		for _, pr := range fc.Promises {
+		for _, pr := range prs {
 			if pr.At != name {
 				continue
 			}
 			env := x.envFor(st, x.entry, fr)
-			env.vars["$msg"] = v
+			bind(env, v, "ev_sent_"+name, "ev_send_"+name)
 			g := x.evalBool(env, pr.Expr)
 			if cond != "" {
 				g = implies(cond, g)
 			}
 			x.oblige(st, "send@"+name, pr.Label, pr.Props, g, x.P.Pos(instrPos(pos)), pr.Src)
 		}
-	case "recv":
-		fc, ok := x.C.Funcs[x.P.FuncName(fn)]
-		if !ok {
-			return
-		}
-		for _, pr := range fc.Promises {
-			if pr.At != name {
+	case "close":
+		for _, pr := range prs {
+			if pr.At != "close "+name {
 				continue
 			}
 			env := x.envFor(st, x.entry, fr)
-			env.vars["$msg"] = v
+			bind(env, nil, "ev_sent_"+name, "ev_send_"+name)
 			g := x.evalBool(env, pr.Expr)
-			c := cond
-			if okT != "" {
-				c = and(cond, okT)
+			if cond != "" {
+				g = implies(cond, g)
 			}
-			if c != "" && c != "true" {
-				g = implies(c, g)
+			x.oblige(st, "close@"+name, pr.Label, pr.Props, g, x.P.Pos(instrPos(pos)), pr.Src)
+		}
+	case "recv":
+		if v == nil {
+			return
+		}
+		for _, pr := range prs {
+			switch {
+			case pr.At == name:
+				env := x.envFor(st, x.entry, fr)
+				bind(env, v, "ev_val_"+name, "ev_recv_"+name)
+				g := x.evalBool(env, pr.Expr)
+				c := cond
+				if okT != "" {
+					c = and(cond, okT)
+				}
+				if c != "" && c != "true" {
+					g = implies(c, g)
+				}
+				st.assume(g)
+			case pr.At == "close "+name && okT != "":
+				env := x.envFor(st, x.entry, fr)
+				bind(env, nil, "ev_val_"+name, "ev_recv_"+name)
+				g := implies(and(cond, not(okT)), x.evalBool(env, pr.Expr))
+				st.assume(g)
 			}
-			st.assume(g)
 		}
 	}
 }
